@@ -92,7 +92,7 @@ Step(q, lbl) ==
       s == NewSize(cfg, St, b)
       d == Declared(cfg, St, b, s, lbl) IN
   /\ d >= 0
-  /\ \/ AddRejectFull(b, d, s) \/ AddRejectDeclared(b, d, s) \/ AddRejectAfter(b, d, s) \/ AddAccept(b, d, s)
+  /\ AddAny(b, d, s)      \* = AddRejectFull \/ AddRejectDeclared \/ AddRejectAfter \/ AddAccept
   /\ nadds' = nadds + 1
   /\ hist' = IF TrackHist THEN Append(hist, [b |-> q, lbl |-> lbl, exit |-> last'.exit, d |-> d]) ELSE hist
 
@@ -101,6 +101,14 @@ Next == \/ /\ nadds < MaxAdds
         \/ /\ Finalize(ExactSize(cfg, St)) /\ UNCHANGED <<nadds, hist>>
 
 Spec == Init /\ [][Next]_vars
+
+\* States are explored modulo this view: everything the future behaviour and the invariants depend on.
+\* Of the accepted sequence only the sums, the truthfulness and the bag of bundle classes matter
+\* (the toys are functions of the class bag), so histories that agree on them are merged.
+RECURSIVE Declareds(_)
+Declareds(acc) == IF acc = <<>> THEN <<>> ELSE <<acc[1].d>> \o Declareds(Tail(acc))
+View == <<cfg, blockCost, byteCost, size, skipped, BagOfSeq(sigBag), phase, last, nadds, hist,
+          Len(accepted), SumDeclared(accepted), AllTruthful(accepted), BagOfSeq(ClassesOf(accepted))>>
 
 (* ---- assumptions checked by TLC at start-up ---- *)
 ASSUME \A c \in Configs : ConfigOk(c)
